@@ -457,29 +457,29 @@ func convToBasicNumber(source interface{}, target reflect.Type) (interface{}, er
 		// (0.99999999999999999999) and is exact only up to 2^53
 		f, _ := try2Float64(v).(float64)
 		i, fits := v.Int64()
-		if !fits {
-			i = int64(f)
+		// a number that is not finite or lies outside the parameter's integer type cannot be converted
+		intIn := func(lo, hi int64) (int64, error) {
+			if !fits || i < lo || i > hi {
+				return 0, fmt.Errorf("convToBasicNumber %s does not fit %v", v.String(), target)
+			}
+			return i, nil
 		}
 		switch target.Kind() {
 		case reflect.Int8:
-			if fits {
-				return int8(i), nil
-			}
-			return int8(f), nil
+			n, err := intIn(math.MinInt8, math.MaxInt8)
+			return int8(n), err
 		case reflect.Int16:
-			if fits {
-				return int16(i), nil
-			}
-			return int16(f), nil
+			n, err := intIn(math.MinInt16, math.MaxInt16)
+			return int16(n), err
 		case reflect.Int:
-			return int(i), nil
+			n, err := intIn(math.MinInt, math.MaxInt)
+			return int(n), err
 		case reflect.Int32:
-			if fits {
-				return int32(i), nil
-			}
-			return int32(f), nil
+			n, err := intIn(math.MinInt32, math.MaxInt32)
+			return int32(n), err
 		case reflect.Int64:
-			return i, nil
+			n, err := intIn(math.MinInt64, math.MaxInt64)
+			return n, err
 		case reflect.Float32:
 			return float32(f), nil
 		case reflect.Float64:
